@@ -25,11 +25,15 @@ More  == {N(2), H(1), Mk1("a", N(3)), Mk2("a", N(2), "b", N(1)), Mk1("neg", Mk1(
           Dict([k \in {Str(<<97>>, 0)} |-> N(1)]), S({Ent(N(1), N(2)), Ent(N(2), N(3))}), S({Mk1("c", N(1))}),
           S({N(1), N(2), Mk1("a", N(1))}), S({S({N(1)}), S({N(2)})}), S({TrueV}), S({N(0)}), S({H(0)}),
           Mk1("a", Arr(<<N(1)>>, 0)), Mk1("a", S({N(1)})), S({Mk1("a", S({N(1)}))}), S({Mk1("a", S({N(2)}))}) }
+\* relations of two and three rows over one heading: pairs of them differ in several rows, in opposite
+\* directions (row-by-row comparison must stop at the FIRST differing row)
+Rows2  == {Mk2("a", N(i), "b", N(j)) : i, j \in 1..2}
+RelFam == {S(x) : x \in {y \in SUBSET Rows2 : Cardinality(y) \in 2..3}}
 \* generated part: every set of at most two members over a mixed pool (union sets, nested sets, ...)
 GenPool == {N(1), N(2), EmptyT, Mk1("a", N(1)), Mk1("b", N(1)), Chr(0, 97), Chr(1, 98), Itm(0, N(1)), Ent(N(1), N(2)), Byt(0, 1),
             S({}), TrueV, S({N(1)}), Str(<<97>>, 0), Arr(<<N(1)>>, 0)}
 Generated == {S(x) : x \in {y \in SUBSET GenPool : Cardinality(y) \in 1..2}}
-U == Nums \cup Tups \cup Sets \cup (IF Big THEN More ELSE {}) \cup (IF Gen THEN Generated ELSE {})
+U == Nums \cup Tups \cup Sets \cup RelFam \cup (IF Big THEN More ELSE {}) \cup (IF Gen THEN Generated ELSE {})
 Init == done = FALSE
 Emit == ~done /\ done' = TRUE /\ PrintT(ToJson([spec |-> "ValueOrder", u |-> U]))
 Spec == Init /\ [][Emit]_done
